@@ -8,6 +8,7 @@ CONSTANTS
   GenTokens <- GenTokensDef
   LeafTokens <- LeafTokensDef
   KeyTokens <- KeyTokensDef
+  UnencMode = "empty"
   MaxTok = 2
 INIT CInit
 NEXT CNext
